@@ -62,7 +62,9 @@ def thorough_extras(prop, cfg, infra):
     results = []
     real_repo = extract.REPO
     try:
-        for (mp, what, rel, frm, to) in mutants.M:
+        for mut in mutants.M:
+            (mp, what, rel, frm, to) = mut[:5]
+            more = list(zip(mut[5::2], mut[6::2]))   # further (from, to) pairs in the same file
             if mp != prop:
                 continue
             shutil.rmtree(scratch, ignore_errors=True)
@@ -72,7 +74,14 @@ def thorough_extras(prop, cfg, infra):
             if text.count(frm) != 1:
                 results.append(dict(mutant=what, file=rel, status="stale (pattern found %d times)" % text.count(frm)))
                 continue
-            open(path, "w").write(text.replace(frm, to))
+            text = text.replace(frm, to)
+            stale2 = [f2 for (f2, t2) in more if text.count(f2) != 1]
+            if stale2:
+                results.append(dict(mutant=what, file=rel, status="stale (second pattern not found once)"))
+                continue
+            for (f2, t2) in more:
+                text = text.replace(f2, t2)
+            open(path, "w").write(text)
             extract.REPO = scratch
             caught, why = False, []
             for un in cfg.get("units", []):
